@@ -10,6 +10,7 @@
 -/
 import PsutilModel.Base.Bytes
 import PsutilModel.Base.Dec
+import PsutilModel.Model.C08Int
 namespace Psutil.C08
 
 /-- the exceptions the parsers can raise (explicit, never totalised away) -/
@@ -17,6 +18,9 @@ inductive Err
   | indexError                 -- `fields[1]` / `line.split()[1]` on a short line
   | valueError                 -- `int()` on a non-number
   | keyError (k : Bytes)       -- `mems[b'MemTotal:']` …
+  | negLiteral                 -- NOT an exception: `int()` returned a negative number and the
+                               -- implementation carries on with it; the model's figures are naturals
+                               -- (the kernel prints `%lu`), so it stops here — explicitly, no claim
   deriving DecidableEq, Repr
 
 /-- `mems[fields[keyIdx]] = int(fields[valIdx]) * factor` -/
@@ -78,6 +82,17 @@ structure Cfg where
   -- positional layout of the returned records: (field name, local variable passed there)
   svmemLayout : List (String × String)
   sswapLayout : List (String × String)
+  -- the native record behind the swap fallback: members of `struct sysinfo` in the order
+  -- `Py_BuildValue` lays them out (arch/linux/mem.c) and the names the Python unpacks them into
+  sysCOrder : List String
+  sysUnpack : List String
+  sysTotalTimesUnit : Bool     -- `total *= unit_multiplier`
+  sysFreeTimesUnit : Bool      -- `free *= unit_multiplier`
+  -- psutil/__init__.py: `_TOTAL_PHYMEM = ret.total` in virtual_memory(), and
+  -- `_TOTAL_PHYMEM or virtual_memory().total` in Process.memory_percent()
+  primesTotalPhymem : Bool
+  phymemField : String         -- the field of the record that is cached (`total`)
+  memPercentUsesCache : Bool
   deriving DecidableEq, Repr
 
 /-! ### parsing /proc/meminfo -/
@@ -90,9 +105,10 @@ def parseLine (p : ParseCfg) (line : Bytes) : Except Err (Bytes × Nat) :=
   match fields[p.valIdx]? with
   | none => .error .indexError
   | some v =>
-    match parseDec? v with
-    | none => .error .valueError
-    | some n =>
+    match pyIntLit v with
+    | .invalid => .error .valueError
+    | .neg _ => .error .negLiteral
+    | .nat n =>
       match fields[p.keyIdx]? with
       | none => .error .indexError
       | some k => .ok (k, n * p.factor)
@@ -119,9 +135,10 @@ def watermarkLow (c : Cfg) : List Bytes → Except Err Nat
       match (splitWs l)[c.lowIdx]? with
       | none => .error .indexError
       | some t =>
-        match parseDec? t with
-        | none => .error .valueError
-        | some n =>
+        match pyIntLit t with
+        | .invalid => .error .valueError
+        | .neg _ => .error .negLiteral
+        | .nat n =>
           match watermarkLow c rest with
           | .error e => .error e
           | .ok s => .ok (n + s)
@@ -303,17 +320,15 @@ structure SwapOut where
   usedSysinfo : Bool   -- ghost: the fallback branch ran (the harness observes the call)
   deriving DecidableEq, Repr
 
-/-- `int(x)` on a piece that may carry surrounding blanks (`b"12\n"`) -/
-def pyInt? (s : Bytes) : Option Nat := parseDec? (stripWs s)
-
 /-- `int(line.split(b' ')[idx]) * factor` -/
 def vmstatField (idx factor : Nat) (line : Bytes) : Except Err Nat :=
   match (splitOn 32 line)[idx]? with
   | none => .error .indexError
   | some t =>
-    match pyInt? t with
-    | none => .error .valueError
-    | some n => .ok (n * factor)
+    match pyIntLit t with                 -- `int()` strips the blanks (`b"12\n"`) itself
+    | .invalid => .error .valueError
+    | .neg _ => .error .negLiteral
+    | .nat n => .ok (n * factor)
 
 /-- the `for line in f: … else:` loop; `none` = loop ended without `break` -/
 def vmstatLoop (c : Cfg) : List Bytes → Option Nat → Option Nat → Except Err (Option (Nat × Nat))
@@ -337,7 +352,8 @@ def vmstatLoop (c : Cfg) : List Bytes → Option Nat → Option Nat → Except E
 def swapTotals (c : Cfg) (lk : Bytes → Option Nat) (sys : Sysinfo) : Nat × Nat × Bool :=
   match lk c.kSwapTotal, lk c.kSwapFree with
   | some total, some free => (total, free, false)
-  | _, _ => (sys.total * sys.unit, sys.free * sys.unit, true)
+  | _, _ => (if c.sysTotalTimesUnit then sys.total * sys.unit else sys.total,
+             if c.sysFreeTimesUnit then sys.free * sys.unit else sys.free, true)
 
 def swapCore (c : Cfg) (lk : Bytes → Option Nat) (sys : Sysinfo) (vmstat : Option Bytes) :
     Except Err SwapOut :=
@@ -364,6 +380,70 @@ def swapMemory (c : Cfg) (meminfo : Bytes) (sys : Sysinfo) (vmstat : Option Byte
   match parseMeminfo c.swParse meminfo with
   | .error e => .error e
   | .ok mems => swapCore c (fun k => mems.lookup k) sys vmstat
+
+/-! ### the native record behind the fallback: `psutil_linux_sysinfo()` (arch/linux/mem.c) -/
+
+/-- `struct sysinfo` as sysinfo(2) fills it (sizes in units of `mem_unit` bytes) -/
+structure SysinfoC where
+  totalram : Nat
+  freeram : Nat
+  bufferram : Nat
+  sharedram : Nat
+  totalswap : Nat
+  freeswap : Nat
+  mem_unit : Nat
+  deriving DecidableEq, Repr
+
+def SysinfoC.get (s : SysinfoC) : String → Option Nat
+  | "totalram" => some s.totalram
+  | "freeram" => some s.freeram
+  | "bufferram" => some s.bufferram
+  | "sharedram" => some s.sharedram
+  | "totalswap" => some s.totalswap
+  | "freeswap" => some s.freeswap
+  | "mem_unit" => some s.mem_unit
+  | _ => none
+
+/-- the tuple `Py_BuildValue("(kkkkkkI)", info.totalram, …)` returns -/
+def SysinfoC.tuple (order : List String) (s : SysinfoC) : List Nat := order.filterMap s.get
+
+/-- `_, _, _, _, total, free, unit_multiplier = cext.linux_sysinfo()`: the three values the
+    Python keeps (`none`: the tuple does not have the unpacked arity — a ValueError in Python) -/
+def sysView (c : Cfg) (t : List Nat) : Option Sysinfo :=
+  if t.length ≠ c.sysUnpack.length then none
+  else
+    match (c.sysUnpack.zip t).lookup "total", (c.sysUnpack.zip t).lookup "free",
+          (c.sysUnpack.zip t).lookup "unit_multiplier" with
+    | some a, some b, some u => some ⟨a, b, u⟩
+    | _, _, _ => none
+
+/-! ### psutil/__init__.py: the cached total used by `Process.memory_percent()` -/
+
+/-- `psutil.virtual_memory()` (front end): returns the platform result and primes
+    `_TOTAL_PHYMEM` (the state component) with the record's `total`; an exception leaves it -/
+def frontVm (c : Cfg) (st : Option Int) (r : Except Err VmOut) : Option Int × Except Err VmOut :=
+  match r with
+  | .error e => (st, .error e)
+  | .ok o => (if c.primesTotalPhymem then
+                (match (c.svmemLayout.lookup c.phymemField) with
+                 | some v => o.var v
+                 | none => none)
+              else st, .ok o)
+
+/-- `_TOTAL_PHYMEM or virtual_memory().total` in `Process.memory_percent()`: the cached figure
+    when it is truthy (neither `None` nor 0), else a fresh call (which primes the cache again).
+    Returns the new state and the total used (`none`: the fresh call raised). -/
+def memPercentTotal (c : Cfg) (st : Option Int) (fresh : Except Err VmOut) :
+    Option Int × Option Int :=
+  match (if c.memPercentUsesCache then st else none) with
+  | some t => if t ≠ 0 then (st, some t) else
+      match frontVm c st fresh with
+      | (st', .ok o) => (st', some o.total)
+      | (st', .error _) => (st', none)
+  | none =>
+      match frontVm c st fresh with
+      | (st', .ok o) => (st', some o.total)
+      | (st', .error _) => (st', none)
 
 def SwapOut.var (o : SwapOut) : String → Option Int
   | "total" => some o.total
